@@ -84,6 +84,24 @@ CHECKS["C06"] = dict(
           "(unaligned views after odd 16-bit index counts - pinned by the repository's own writer tests; scalar attributes not carried)."),
     design="3/C06 and NOTES-gltf.md", technique="TLA+ spec + TLC-generated scenes written by real code + TLC trace validation")
 
+CHECKS["C17"] = dict(
+    text=("Algebra.tla: exact integer algebra (cube rotation group as a state machine over signed permutation matrices, integer 3x3/4x4 "
+          "matrices with Add/Mul/Det, unimodular walks, TRS, boxes); TLC explores the group/word graphs and checks the group laws on the "
+          "spec, and generates words, matrix pairs (all 256 basis pairs), TRS and box cases that the harness executes with real "
+          "quaternions, Matrix4x4, TRS, Mesh transforms and AABB; TraceAlgebra.tla judges exact lattice cases by equality and real "
+          "(non-lattice) cases by residual bands proportional to magnitude."),
+    note=("Trusted base: TLC; projection of reals to 1/1024 units with exactness flag; non-lattice laws decided by tolerance bands "
+          "(DESIGN section 4)."),
+    design="3/C17 and NOTES-alg.md", technique="TLA+ exact algebra + TLC-generated cases executed on real code + TLC trace validation")
+CHECKS["C19"] = dict(
+    text=("Sdf.tla: exact integer interior predicates of sphere, box, rounded box, capsule, rounded cone (hull of two balls), rounded "
+          "cylinder, plane on a sample lattice, and the predicates Sign, Euclid, Lipschitz (all neighbouring lattice pairs and far "
+          "pairs), SetOps, Translate on logged scaled values; SdfGen enumerates shape parameters; the real closures of math/sdf are "
+          "sampled and TraceSdf.tla judges every slab."),
+    note=("Trusted base: TLC; values logged at 1/Q precision (Q <= 1000); Euclidean equality and Lipschitz within explicit integer "
+          "bands; this property is the one furthest from TLA+'s home ground and is claimed at that stated strength."),
+    design="3/C19 and NOTES-alg.md", technique="TLA+ exact point-set semantics + sampled real closures + TLC trace validation")
+
 NOT_APPLICABLE = []
 
 
